@@ -109,7 +109,7 @@ def finding_matches(f, op, msg):
 
 
 def run_card_property(ctx: Ctx, *, area, required, weights, view, oracle, quick=(300, 30), thorough=(6000, 60),
-                      extra_streams=None):
+                      extra_streams=None, scenarios=()):
     t0 = time.time()
     lean_ok = ctx.build(required_theorems=required)
     fp_changed = fingerprints.changed(area)
@@ -147,8 +147,12 @@ def run_card_property(ctx: Ctx, *, area, required, weights, view, oracle, quick=
             k += len(h)
         batch_hist, batch_outs = [], []
 
-    for hi in range(n_hist):
-        hist, _ = card.gen_history(ctx.rng, n_ops, weights)
+    scenarios = list(scenarios)
+    for hi in range(n_hist + len(scenarios)):
+        if hi < len(scenarios):
+            hist = scenarios[hi]          # fixed multi-step sequences that random generation reaches too rarely
+        else:
+            hist, _ = card.gen_history(ctx.rng, n_ops, weights)
         outs, fails = runner.run(hist)
         evaluations += len(hist)
         for op, o in zip(hist, outs):
